@@ -26,13 +26,13 @@ ASSUMPTIONS = ["criteria as worded in the property statement",
 def generate(seed, tier):
     rng = stream(seed, "c07")
     big = tier == "thorough" and rng.random() < 0.15
-    spec = gen_instance(rng, max_jobs=6 if big else 5, max_machines=5 if big else 4, max_ops=5 if big else 4)
+    spec = gen_instance(rng, huge=0.05, max_jobs=6 if big else 5, max_machines=5 if big else 4, max_ops=5 if big else 4)
     names, style = gen_filter(rng, None, p_none=0.2)
     only_av = rng.random() < 0.5
     ops = gen_dispatch_ops(rng, n_ops(spec), p_query=0.05, p_reset=0.02, src_av=1.0 if only_av else 0.5)
     comps = [[rng.choice(FILTERS) for _ in range(rng.randint(2, 3))] for _ in range(rng.randint(1, 2))]
     return {"prop": PROP, "cfg": {"instance": spec, "filter": names, "filter_style": style,
-                                  "compositions": comps, "comp_style": rng.choice(["name", "enum", "callable", "mixed"]),
+                                  "compositions": comps, "comp_style": rng.choice(["name", "enum", "callable", "mixed", "generator", "tuple"]),
                                   "sub_seed": rng.randrange(1 << 30), "only_available": only_av}, "ops": ops}
 
 
